@@ -5,14 +5,31 @@ Cases are operation sequences on one GaussianMixture / Gaussian / ParticleSet ob
   word ops <token> ...
   mat <qname> r c v...   int <qname>.r r   int <qname>.c c        (noise covariances)
 ctor: full = (c, l, ci, q); noq = (c, l, ci) relying on the default use_quaternion; two = (c, dim) / Gaussian(l);
-default = ().  Tokens: F<base> fill all storage with distinct integers base, base+1, ... (through the public Ref
-accessors); C copy-construct, M move-construct (no move constructor exists: copies), S copy-assign into a
+default = ().  Tokens: F<base> fill all storage with distinct integers base, base+1, ... (through the public whole-matrix
+Ref accessors); G<base> the same values written cell by cell through the non-const ELEMENT accessors of every component
+(mean(i,j), covariance(i,j,k), weight(i), state(i,j); a one-component Gaussian: its own mean(j), covariance(j,k), weight());
+H<base> the same through the non-const BLOCK accessors (mean(i) = column, covariance(i) = block, state(i) = column);
+C copy-construct, M move-construct (no move constructor exists: copies), S copy-assign into a
 default-constructed object; R<c>,<l>,<ci> resize (Gaussian: R<l>,<ci>); r<c>,<l> (Gaussian: r<l>) resize relying on
 the default dim_circular = 0; B<c>,<l>,<ci> (Gaussian only) the virtual GaussianMixture::resize through a
 GaussianMixture&; A<qname> augmentWithNoise; W augmentWithNoise(own covariance()) (aliased argument); particle sets
 only: P<c>,<l>,<ci>,<q>,<base> `+=` a fresh filled set, Q... the same with operator+, D `+=` a copy of itself,
 E `x + x`, Z `x += x` (aliased operand).  Both sides print, after the constructor (step 0) and after each operation
 k, "<k>.<field>".
+
+POOL.  A case may have further objects of the same class: word pool <c,l,ci,q> ... (slots 1, 2, ...; slot 0 is the object
+of the case header).  Upper-case tokens act on the object in focus (slot 0 at the start).  Lower-case tokens are the special
+member functions between slots and from temporaries; the slot they write becomes the focus and is the one printed
+("<k>.slot"):  @<i> look at slot i (nothing is executed);  c<t>,<s> copy-construct a new object from slot s, replacing
+slot t;  m<t>,<s> the same with std::move (s is moved-from afterwards: not looked at until it is a target);  s<t>,<s>
+copy-assign (t = s: self-assignment);  v<t>,<s> move-assign;  t<t>,<c>,<l>,<ci>,<q>,<base> assign a temporary (base < 0:
+the constructor call itself, else a function returning a filled object by value);  n<t>,... construct from such a
+temporary;  f<t>,<s>,<qname> t = augmented(s, Q) (function returning an augmented copy by value; s may be t);
+a<t>,<s>,<qname> the same through a named augmented copy (copy assignment);  g<t>,<s>,<c>,<l>,<ci> / b... the same with a
+resized copy;  particle sets: p<t>,<a>,<b> t = a + b, w<t>,<a>,<b> construct from a + b, u<t>,<s> t += s;  mixtures:
+x<t>,<l>,<ci>,<q>,<named> t = Gaussian(l, ci, q) (named: from a named Gaussian), y<t>,<c>,<l>,<ci>,<q>,<base> t = f()
+returning a filled ParticleSet.  The oracle compares the target with the source AS THE IMPLEMENTATION PRINTED IT when it
+was last written.
 
 "Outside" operations (the model's definedness predicate is false: square augmentation of a 0-component object,
 `+=` of a mismatched or aliased operand, augmentation with the own covariance() when storage is reallocated) end a
@@ -27,15 +44,21 @@ import numpy as np
 from vlib import caseio
 
 ID = "C11"
-COQ_TARGETS = ["C11_Extract.vo", "C11_Regress.vo"]
+COQ_TARGETS = ["C11_Extract.vo", "C11_Regress.vo", "C11_Access.vo"]
 EXTRACTED = "C11_model"
 DRIVER = "drv_C11.ml"
 HARNESS = "h_C11.cpp"
 VARIANTS = {"quick": ["assert", "O1"], "thorough": ["assert", "O1", "asan"]}
 AXIOMS_ALLOWED = []
 REQUIRED_THEOREMS = ["C11_ctor_consistent", "C11_ctor_uniform_weights", "C11_inv", "C11_reachable",
-                     "C11_gauss_reachable", "C11_pset_inv", "C11_pset_reachable", "C11_copy_is_identity", "C11_invariant_executable",
+                     "C11_gauss_reachable", "C11_pset_inv", "C11_pset_reachable",
+                     "C11_pool_reachable", "C11_gauss_pool_reachable", "C11_pset_pool_reachable", "C11_copy_exact", "C11_move_exact",
+                     "C11_temporary_exact", "C11_assign_function_result", "C11_assign_sum", "C11_pool_single_history",
+                     "C11_copy_is_identity", "C11_invariant_executable",
                      "C11_accessors", "C11_pset_accessors", "C11_gauss_accessors",
+                     "C11_pset_components_view", "C11_view_determines_storage", "C11_write_mean_el", "C11_write_cov_el", "C11_write_weight",
+                     "C11_write_state_el", "C11_write_blocks", "C11_fill_through_accessors", "C11_augment_repeated_content",
+                     "C11_noise_mean_zero", "C11_pset_augment_parts",
                      "C11_storage_is_concatenation_of_blocks", "C11_components_view",
                      "C11_resize_components_preserves", "C11_pset_resize_components_preserves",
                      "C11_augment_content", "C11_augment_nonsquare", "C11_augment_twice_content",
@@ -51,7 +74,14 @@ RULE = ("operation sequences from one seeded stream over gm / gauss / pset objec
         "augmentWithNoise (0x0, 1..3, non-square; repeated; with the own covariance()), += / + (fresh operand of the same or an "
         "equal-size layout, self copy, aliased self), and 'outside' endings (0-component augmentation, mismatched / aliased operand) "
         "which are outside the property (nothing is reported on them, both outcomes are counted); plus every sequence of length <= 2 (quick) / <= 3 (thorough) over boundary "
-        "layouts; non-trivial = at least two operations other than fill; distinct by (kind, constructor layout, operation-type word)")
+        "layouts; POOLS: 400 (quick) / 4000 (thorough) sequences over 2..3 objects of one class with unrelated layouts, contents and noise "
+        "augmentation, mixing the single-object operations on the object in focus with copy / move construction, copy / move assignment "
+        "between objects, self-assignment, construction / assignment from temporaries (constructor call, function returning a filled "
+        "object, function returning an augmented / resized copy of another object or of the target itself, a + b of pool objects, a "
+        "mixture assigned from a Gaussian / ParticleSet), t += s, and looks at the objects that must not have changed; plus every one "
+        "(thorough: every two) of these operations on two filled objects in all four noise-augmentation combinations; a moved-from object "
+        "is not looked at until it is the target of a construction / assignment; "
+        "non-trivial = at least two operations other than fill / look; distinct by (kind, constructor layout, operation-type word)")
 TRUSTED_BASE = ["Coq 8.16.1 kernel (coqc); no axioms (Print Assumptions: closed under the global context)",
                 "extraction (ExtrOcamlBasic only) and ocaml/float_ops.ml, ocaml/drv_C11.ml, ocaml/caseio.ml",
                 "the model of the Eigen 3.4 primitives in coq/C11_Model.v (resize keeps an equal-sized buffer and zero-fills "
@@ -62,7 +92,11 @@ TRUSTED_BASE = ["Coq 8.16.1 kernel (coqc); no axioms (Print Assumptions: closed 
                 "cpp/h_C11.cpp harness (subclasses exposing the protected matrices); comparison is exact, cells the model marks "
                 "uninitialised (NaN) are not compared",
                 "correspondence is sampled: agreement is established on the generated sequences only"]
-ASSUMPTIONS = ["histories are quantified through gm_run / gauss_run / ps_run: an operation is executed only if it is defined in the C++ "
+ASSUMPTIONS = ["copies: in /repo the three classes declare only a virtual destructor, so copy construction / assignment are the implicit "
+               "member-wise ones and std::move / temporaries bind to them; the model says 'the target becomes the source's value' for copy AND "
+               "move operations and marks the source of a move as unavailable (valid but unspecified): the check never looks at a moved-from "
+               "object before it is re-assigned, and does not exercise self-move-assignment",
+               "histories are quantified through gm_run / gauss_run / ps_run (one object) and gm_krun / gauss_krun / ps_krun (pools): an operation is executed only if it is defined in the C++ "
                "(square augmentation needs components >= 1; += / + need a distinct operand of equal dim and dim_covariance; the aliased calls "
                "x += x and x.augmentWithNoise(x.covariance()) are defined only when nothing is reallocated)",
                "a Gaussian keeps ONE component only while it is not resized to another count through a GaussianMixture& "
@@ -73,7 +107,10 @@ LEVEL_TEXT = ("Proof: for the list model of GaussianMixture / Gaussian / Particl
               "shapes, Eigen resize / conservativeResize / block / column-swap semantics), the invariant Consistent (dim = dl + dc*dcc + dn, "
               "dcc = 4|1, dcov = dl + dc*(3|1) + dn, mean dim x components, covariance dcov x dcov*components, weight components, state dim x "
               "components, all well-formed) holds after the constructors and is preserved by every operation, hence along all operation "
-              "sequences of any length and all layouts on which the C++ is defined; accessors address exactly component i's block; a change "
+              "sequences of any length and all layouts on which the C++ is defined, also for every object of a pool in which objects are "
+              "copy-/move-constructed and -assigned from one another, from themselves and from temporaries (constructor calls, results of "
+              "functions that modify a copy, a + b): the target is exactly the source's value, no third object changes; "
+              "accessors address exactly component i's block; a change "
               "of the component count preserves the survivors; augmentation gives [m;0] and blockdiag(P,Q) for every component (particle "
               "states [x;0]), also repeatedly; concatenation gives both operands in order; new mixtures have uniform weights.")
 LEVEL_NOTE = ("Tied to the code by exact comparison of every descriptor, storage dimension, storage cell and the views of every accessor "
@@ -85,6 +122,7 @@ LEVEL_NOTE = ("Tied to the code by exact comparison of every descriptor, storage
 
 LEN = {"quick": (1, 12), "thorough": (1, 60)}
 COUNTS = {"quick": 360, "thorough": 5000}
+POOL_COUNTS = {"quick": 400, "thorough": 4000}
 MAXC = 9
 MAXDIM = 16
 COUNTERS = {}
@@ -112,6 +150,11 @@ class Sh:
         if (c, l, ci) == (s.c, s.l, s.ci):
             return
         s.c, s.l, s.ci, s.n = c, l, ci, 0
+
+    def copy(s):
+        o = Sh(s.kind, s.c, s.l, s.ci, s.q)
+        o.n = s.n
+        return o
 
 
 def qmat(case, name, r, c, base):
@@ -163,6 +206,72 @@ def finish_case(case, toks, outside=None):
     return case
 
 
+def pick_single(rng, kind, sh, case, st):
+    """One operation on the object in focus (its shape is tracked by sh); None if the drawn one does not fit."""
+    k = rng.random()
+    if k < 0.14:
+        st["base"] += 4000
+        # through the whole-matrix accessors, or (small objects: the model executes every single write) cell by cell
+        # through the element accessors / component by component through the block accessors
+        how = "F" if (k < 0.07 or sh.dcov * sh.dcov * sh.c > 300) else rng.choice("GH")
+        return "%s%d" % (how, st["base"] - 4000)
+    if k < 0.26:
+        return rng.choice("CMS")
+    if k < 0.54:
+        c2, l2, ci2 = pick_resize(rng, sh)
+        if kind == "gauss":
+            c2 = 1
+        if l2 + ci2 * sh.dcc > MAXDIM:
+            return None
+        sh.resize(c2, l2, ci2)
+        return rtok(kind, c2, l2, ci2, rng)
+    if k < 0.57 and kind == "gauss":
+        c2 = rng.choice([1, 2, 3])                           # through a GaussianMixture&
+        l2, ci2 = (sh.l, sh.ci) if rng.random() < 0.5 else (rng.randint(0, 3), rng.randint(0, 1))
+        sh.resize(c2, l2, ci2)
+        return "B%d,%d,%d" % (c2, l2, ci2)
+    if k < 0.60:
+        # augmentation with the own covariance(): defined when it is not square (refused) or empty (nothing added)
+        if sh.c == 0 or (sh.c == 1 and sh.dcov > 0):
+            return None
+        return "W"
+    if k < 0.78 or kind != "pset":
+        r = rng.choice([0, 1, 1, 2, 2, 3, 3])
+        cols = r if rng.random() < 0.88 else r + rng.choice([1, 2])
+        if sh.dim + r > MAXDIM:
+            return None
+        if sh.c == 0 and cols == r:
+            return None                                       # outside: only as an ending
+        name = "q%d" % st["nq"]; st["nq"] += 1
+        qmat(case, name, r, cols, 9000 + 100 * st["nq"])
+        if cols == r:
+            sh.n += r
+        return "A" + name
+    kk = rng.random()
+    if kk < 0.2:
+        if 2 * sh.c > MAXC:
+            return None
+        sh.c *= 2
+        return rng.choice("DE")
+    if kk < 0.24 and sh.c == 0:
+        return "Z"                                            # x += x of an empty set is defined
+    c2 = rng.randint(1, 3)
+    if sh.c + c2 > MAXC:
+        return None
+    l2, ci2, q2 = sh.l + sh.n, sh.ci, sh.q                    # equal dim and dim_covariance (noise counted as linear)
+    if rng.random() < 0.3:
+        if not sh.q:
+            tot = sh.l + sh.ci + sh.n
+            ci2 = rng.randint(0, min(2, tot)); l2 = tot - ci2
+            if ci2 == 0 and rng.random() < 0.5:
+                q2 = 1
+        elif sh.ci == 0 and rng.random() < 0.5:
+            q2 = 0
+    st["base"] += 4000
+    sh.c += c2
+    return "%s%d,%d,%d,%d,%d" % (rng.choice("PPQ"), c2, l2, ci2, q2, st["base"] - 4000)
+
+
 def random_case(rng, cid, tier, kind):
     lo, hi = LEN[tier]
     ctor = rng.choice(["full"] * 5 + ["noq", "noq", "two", "default"])
@@ -181,71 +290,19 @@ def random_case(rng, cid, tier, kind):
     sh = Sh(kind, c, l, ci, q)
     case = caseio.Case(cid, kind, {"c": c, "l": l, "ci": ci, "q": q, "ctor": ctor})
     n = rng.randint(lo, hi) if rng.random() < 0.7 else rng.randint(lo, min(hi, 6))
-    toks, nq, base = [], 0, rng.randint(1, 50)
+    toks = []
+    st = {"nq": 0, "base": rng.randint(1, 50)}
     end_outside = rng.random() < (0.07 if tier == "quick" else 0.02)
     if rng.random() < 0.9:
-        toks.append("F%d" % base); base += 4000
+        toks.append("F%d" % st["base"]); st["base"] += 4000
     tries = 0
     while len(toks) < n and tries < 400:
         tries += 1
-        k = rng.random()
-        if k < 0.14:
-            toks.append("F%d" % base); base += 4000
-        elif k < 0.26:
-            toks.append(rng.choice("CMS"))
-        elif k < 0.54:
-            c2, l2, ci2 = pick_resize(rng, sh)
-            if kind == "gauss":
-                c2 = 1
-            if l2 + ci2 * sh.dcc > MAXDIM:
-                continue
-            toks.append(rtok(kind, c2, l2, ci2, rng))
-            sh.resize(c2, l2, ci2)
-        elif k < 0.57 and kind == "gauss":
-            c2 = rng.choice([1, 2, 3])                           # through a GaussianMixture&
-            l2, ci2 = (sh.l, sh.ci) if rng.random() < 0.5 else (rng.randint(0, 3), rng.randint(0, 1))
-            toks.append("B%d,%d,%d" % (c2, l2, ci2)); sh.resize(c2, l2, ci2)
-        elif k < 0.60:
-            # augmentation with the own covariance(): defined when it is not square (refused) or empty (nothing added)
-            if sh.c == 0 or (sh.c == 1 and sh.dcov > 0):
-                continue
-            toks.append("W")
-        elif k < 0.78 or kind != "pset":
-            r = rng.choice([0, 1, 1, 2, 2, 3, 3])
-            cols = r if rng.random() < 0.88 else r + rng.choice([1, 2])
-            if sh.dim + r > MAXDIM:
-                continue
-            if sh.c == 0 and cols == r:
-                continue                                          # outside: only as an ending
-            name = "q%d" % nq; nq += 1
-            qmat(case, name, r, cols, 9000 + 100 * nq)
-            toks.append("A" + name)
-            if cols == r:
-                sh.n += r
-        else:
-            kk = rng.random()
-            if kk < 0.2:
-                if 2 * sh.c > MAXC:
-                    continue
-                toks.append(rng.choice("DE")); sh.c *= 2
-            elif kk < 0.24 and sh.c == 0:
-                toks.append("Z")                                  # x += x of an empty set is defined
-            else:
-                c2 = rng.randint(1, 3)
-                if sh.c + c2 > MAXC:
-                    continue
-                l2, ci2, q2 = sh.l + sh.n, sh.ci, sh.q      # equal dim and dim_covariance (noise counted as linear)
-                if rng.random() < 0.3:
-                    if not sh.q:
-                        tot = sh.l + sh.ci + sh.n
-                        ci2 = rng.randint(0, min(2, tot)); l2 = tot - ci2
-                        if ci2 == 0 and rng.random() < 0.5:
-                            q2 = 1
-                    elif sh.ci == 0 and rng.random() < 0.5:
-                        q2 = 0
-                toks.append("%s%d,%d,%d,%d,%d" % (rng.choice("PPQ"), c2, l2, ci2, q2, base)); base += 4000
-                sh.c += c2
+        tok = pick_single(rng, kind, sh, case, st)
+        if tok is not None:
+            toks.append(tok)
     outside = None
+    nq, base = st["nq"], st["base"]
     if end_outside:
         opts = []
         if sh.c == 0 and sh.dcov + 1 <= MAXDIM:
@@ -266,6 +323,270 @@ def random_case(rng, cid, tier, kind):
             else:
                 toks.append("%s%d,%d,%d,%d,%d" % (rng.choice("PQ"), rng.randint(1, 2), sh.l + sh.n + 1, sh.ci, sh.q, base))
     return finish_case(case, toks, outside)
+
+
+def rand_layout(rng, kind, like=None):
+    if like is not None and rng.random() < 0.6:
+        # the same total and covariance size as another object (so that a + b is defined), another component count
+        return (rng.randint(1, 4), like.l + like.n, like.ci, like.q)
+    c, l, ci, q = rng.randint(1, 4), rng.randint(0, 4), rng.randint(0, 2), rng.randint(0, 1)
+    if rng.random() < 0.05 and kind != "gauss":
+        c = 0
+    if kind == "gauss":
+        c = 1
+    return (c, l, ci, q)
+
+
+def pooled_case(rng, cid, tier, kind):
+    """Sequences over a pool of 2..3 objects of unrelated layouts / contents / noise augmentation: the single-object
+    operations on the object in focus, mixed with copy / move construction and assignment between the objects, from
+    temporaries, from functions returning a modified copy by value, from a + b, self-assignment."""
+    lo, hi = LEN[tier]
+    nslots = rng.choice([2, 3, 3])
+    lays = [rand_layout(rng, kind)]
+    sh = [Sh(kind, *lays[0])]
+    for i in range(1, nslots):
+        lays.append(rand_layout(rng, kind, sh[0] if kind == "pset" else None))
+        sh.append(Sh(kind, *lays[-1]))
+    c, l, ci, q = lays[0]
+    case = caseio.Case(cid, kind, {"c": c, "l": l, "ci": ci, "q": q, "ctor": "full", "slots": nslots})
+    case.word("pool", ["%d,%d,%d,%d" % x for x in lays[1:]])
+    alive = [True] * nslots
+    st = {"nq": 0, "base": rng.randint(1, 50)}
+    toks = []
+    focus = 0
+
+    def noise(r, cols=None):
+        name = "q%d" % st["nq"]; st["nq"] += 1
+        qmat(case, name, r, r if cols is None else cols, 9000 + 100 * st["nq"])
+        return name
+
+    def fill():
+        st["base"] += 4000
+        return "F%d" % (st["base"] - 4000)
+
+    # every object gets its own content and, often, its own noise augmentation, so that target and source differ
+    for i in range(nslots):
+        if i > 0:
+            toks.append("@%d" % i)
+        focus = i
+        if rng.random() < 0.85:
+            toks.append(fill())
+        if rng.random() < 0.5 and sh[i].c >= 1:
+            r = rng.randint(1, 3)
+            if sh[i].dim + r <= MAXDIM:
+                toks.append("A" + noise(r)); sh[i].n += r
+        if rng.random() < 0.15:
+            tok = pick_single(rng, kind, sh[i], case, st)
+            if tok is not None:
+                toks.append(tok)
+    n = len(toks) + (rng.randint(lo, hi) if rng.random() < 0.7 else rng.randint(lo, min(hi, 6)))
+    tries = 0
+    while len(toks) < n and tries < 400:
+        tries += 1
+        live = [i for i in range(nslots) if alive[i]]
+        k = rng.random()
+        if k < 0.40:
+            tok = pick_single(rng, kind, sh[focus], case, st) if alive[focus] else None
+            if tok is not None:
+                toks.append(tok)
+            continue
+        if k < 0.53:
+            j = rng.choice(live)
+            toks.append("@%d" % j); focus = j
+            continue
+        t = rng.randrange(nslots)
+        s = rng.choice(live)
+        kinds = ["c", "m", "s", "s", "v", "v", "self", "t", "t", "n", "f", "f", "a", "g", "b"]
+        if kind == "pset":
+            kinds += ["p", "p", "p", "w", "w", "u", "u", "u"]
+        if kind == "gm":
+            kinds += ["x", "y"]
+        op = rng.choice(kinds)
+        look_at = None
+        if op in ("c", "s"):
+            toks.append("%s%d,%d" % (op, t, s)); sh[t] = sh[s].copy()
+            look_at = s
+        elif op == "self":
+            toks.append("s%d,%d" % (s, s)); t = s
+        elif op in ("m", "v"):
+            if op == "v" and t == s:
+                continue
+            toks.append("%s%d,%d" % (op, t, s)); sh[t] = sh[s].copy()
+            if t != s:
+                alive[s] = False
+        elif op in ("t", "n"):
+            lay = rand_layout(rng, kind, sh[s] if kind == "pset" else None)
+            b = -1
+            if rng.random() < 0.5:
+                b = st["base"]; st["base"] += 4000
+            toks.append("%s%d,%d,%d,%d,%d,%d" % ((op, t) + lay + (b,))); sh[t] = Sh(kind, *lay)
+        elif op in ("f", "a"):
+            r = rng.choice([0, 1, 1, 2, 2, 3])
+            cols = r if rng.random() < 0.9 else r + 1
+            if rng.random() < 0.5:
+                t = s                                           # an augmented copy of itself
+            if sh[s].dim + r > MAXDIM or (sh[s].c == 0 and cols == r):
+                continue
+            toks.append("%s%d,%d,%s" % (op, t, s, noise(r, cols))); sh[t] = sh[s].copy()
+            if cols == r:
+                sh[t].n += r
+            look_at = s if s != t else None
+        elif op in ("g", "b"):
+            if rng.random() < 0.5:
+                t = s                                           # a resized copy of itself
+            c2, l2, ci2 = pick_resize(rng, sh[s])
+            if kind == "gauss":
+                c2 = 1
+            if l2 + ci2 * sh[s].dcc > MAXDIM:
+                continue
+            toks.append("%s%d,%d,%d,%d,%d" % (op, t, s, c2, l2, ci2))
+            nsh = sh[s].copy(); nsh.resize(c2, l2, ci2); sh[t] = nsh
+            look_at = s if s != t else None
+        elif op in ("p", "w", "u"):
+            # operands of equal dim and dim_covariance
+            cands = [j for j in live if sh[j].dim == sh[s].dim and sh[j].dcov == sh[s].dcov]
+            s2 = rng.choice(cands)
+            if op == "u":
+                if not alive[t] or t == s or sh[t].dim != sh[s].dim or sh[t].dcov != sh[s].dcov or sh[t].c + sh[s].c > MAXC:
+                    continue
+                toks.append("u%d,%d" % (t, s)); sh[t].c += sh[s].c
+                look_at = s
+            else:
+                if sh[s].c + sh[s2].c > MAXC:
+                    continue
+                toks.append("%s%d,%d,%d" % (op, t, s, s2))
+                nsh = sh[s].copy(); nsh.c += sh[s2].c; sh[t] = nsh
+                look_at = rng.choice([s, s2]) if t not in (s, s2) else None
+        elif op == "x":
+            lay = rand_layout(rng, "gauss")
+            toks.append("x%d,%d,%d,%d,%d" % (t, lay[1], lay[2], lay[3], rng.randint(0, 1))); sh[t] = Sh(kind, 1, lay[1], lay[2], lay[3])
+        elif op == "y":
+            lay = rand_layout(rng, "pset")
+            b = st["base"]; st["base"] += 4000
+            toks.append("y%d,%d,%d,%d,%d,%d" % ((t,) + lay + (b,))); sh[t] = Sh(kind, *lay)
+        alive[t] = True
+        focus = t
+        # a copy must not change its source
+        if look_at is not None and look_at != t and alive[look_at] and rng.random() < 0.5:
+            toks.append("@%d" % look_at); focus = look_at
+    return finish_case(case, toks)
+
+
+def pool_exhaustive(tier):
+    """Two objects of different layouts, each filled, each noise-augmented or not (all four combinations, different noise
+    sizes), then EVERY special member operation between them / from temporaries / from function results once, then a look at
+    the other object and one more augmentation of the target.  Thorough: every pair of such operations."""
+    cases = []
+    pairs = {"gm": [((2, 1, 1, 0), (3, 2, 1, 1)), ((1, 2, 0, 0), (2, 2, 0, 0)), ((3, 0, 1, 1), (1, 4, 0, 1))],
+             "gauss": [((1, 1, 1, 0), (1, 2, 1, 1)), ((1, 2, 0, 0), (1, 3, 0, 0)), ((1, 0, 1, 1), (1, 4, 0, 1))],
+             "pset": [((2, 2, 1, 0), (1, 2, 1, 0)), ((2, 1, 0, 0), (3, 0, 1, 0)), ((1, 2, 0, 0), (2, 3, 1, 1))]}
+
+    def alphabet(kind, lays):
+        o = lays[1]
+        al = ["c0,1", "c1,0", "m0,1", "m1,0", "s0,1", "s1,0", "s0,0", "s1,1", "v0,1", "v1,0",
+              "t0,%d,%d,%d,%d,-1" % o, "t1,%d,%d,%d,%d,8000" % lays[0], "n0,%d,%d,%d,%d,8000" % o, "n1,3,1,1,1,-1",
+              ("f", 0, 0), ("f", 0, 1), ("f", 1, 0), ("a", 0, 1), ("a", 1, 1), ("fn", 0, 1),
+              ("g", 0, 0, 3), ("g", 0, 1, 2), ("b", 1, 0, 1), ("b", 1, 1, 4)]
+        if kind == "pset":
+            al += ["p0,0,1", "p0,1,0", "p1,0,0", "p1,1,1", "w0,1,0", "w1,0,1", "u0,1", "u1,0"]
+        if kind == "gm":
+            al += ["x0,2,1,1,0", "x1,3,0,0,1", "y0,2,2,1,0,8000", "y1,1,0,2,1,8000"]
+        return al
+
+    def build(kind, lays, aug, seq, tag):
+        c, l, ci, q = lays[0]
+        case = caseio.Case("y", kind, {"c": c, "l": l, "ci": ci, "q": q, "ctor": "full", "slots": 2, "exh": tag})
+        case.word("pool", ["%d,%d,%d,%d" % lays[1]])
+        sh = [Sh(kind, *lays[0]), Sh(kind, *lays[1])]
+        alive = [True, True]
+        nq = [0]
+
+        def noise(r, cols=None):
+            name = "q%d" % nq[0]; nq[0] += 1
+            qmat(case, name, r, r if cols is None else cols, 9000 + 100 * nq[0])
+            return name
+        toks = ["F7"]
+        if aug[0]:
+            toks.append("A" + noise(1)); sh[0].n += 1
+        toks += ["@1", "G5007"]
+        if aug[1]:
+            toks.append("A" + noise(2)); sh[1].n += 2
+        for a in seq:
+            if isinstance(a, tuple) and a[0] in ("f", "a", "fn"):
+                t, s = a[1], a[2]
+                if not alive[s]:
+                    return None
+                r, cols = (1, 1) if a[0] != "fn" else (2, 3)
+                toks.append("%s%d,%d,%s" % (a[0][0], t, s, noise(r, cols)))
+                sh[t] = sh[s].copy()
+                if r == cols:
+                    sh[t].n += r
+            elif isinstance(a, tuple):
+                t, s, c2 = a[1], a[2], a[3]
+                if not alive[s]:
+                    return None
+                c2 = 1 if kind == "gauss" else c2
+                l2, ci2 = (sh[s].l, sh[s].ci) if c2 % 2 else (sh[s].l + sh[s].n, sh[s].ci)
+                toks.append("%s%d,%d,%d,%d,%d" % (a[0], t, s, c2, l2, ci2))
+                nsh = sh[s].copy(); nsh.resize(c2, l2, ci2); sh[t] = nsh
+            else:
+                v = [int(x) for x in a[1:].split(",")]
+                t = v[0]
+                if a[0] in "cmsv":
+                    if not alive[v[1]]:
+                        return None
+                    sh[t] = sh[v[1]].copy()
+                    if a[0] in "mv" and v[1] != t:
+                        alive[v[1]] = False
+                elif a[0] in "tn":
+                    sh[t] = Sh(kind, *v[1:5])
+                elif a[0] in "pw":
+                    if not (alive[v[1]] and alive[v[2]]) or sh[v[1]].dim != sh[v[2]].dim or sh[v[1]].dcov != sh[v[2]].dcov:
+                        return None
+                    nsh = sh[v[1]].copy(); nsh.c += sh[v[2]].c; sh[t] = nsh
+                elif a[0] == "u":
+                    if not (alive[t] and alive[v[1]]) or sh[t].dim != sh[v[1]].dim or sh[t].dcov != sh[v[1]].dcov:
+                        return None
+                    sh[t].c += sh[v[1]].c
+                elif a[0] == "x":
+                    sh[t] = Sh(kind, 1, v[1], v[2], v[3])
+                elif a[0] == "y":
+                    sh[t] = Sh(kind, *v[1:5])
+                toks.append(a)
+            alive[t] = True
+            other = 1 - t
+            if alive[other]:
+                toks += ["@%d" % other, "@%d" % t]
+            if sh[t].c >= 1 and sh[t].dim + 1 <= MAXDIM:
+                toks.append("A" + noise(1)); sh[t].n += 1
+                if alive[other]:
+                    toks += ["H60007", "@%d" % other, "@%d" % t]
+            if sh[t].c > 12 or sh[t].dim > MAXDIM + 4:
+                return None
+        return finish_case(case, toks)
+
+    for kind in ("gm", "gauss", "pset"):
+        for pi, lays in enumerate(pairs[kind]):
+            if tier == "quick" and pi == 2 and kind != "pset":
+                continue
+            for aug in ((0, 0), (1, 0), (0, 1), (1, 1)):
+                for a in alphabet(kind, lays):
+                    cs = build(kind, lays, aug, (a,), "p1")
+                    if cs is not None:
+                        cases.append(cs)
+        if tier == "thorough":
+            lays = pairs[kind][0]
+            for aug in ((1, 0), (0, 1)):
+                al = alphabet(kind, lays)
+                for a in al:
+                    for b in al:
+                        cs = build(kind, lays, aug, (a, b), "p2")
+                        if cs is not None:
+                            cases.append(cs)
+    for i, cs in enumerate(cases):
+        cs.id = "y%d" % i
+    return cases
 
 
 def small_q(case, toks, nq, r, cols):
@@ -356,8 +677,10 @@ def exhaustive(tier):
 def corpus():
     """Minimal witnesses of the repaired defects, of the refuted statements and of the outside operations, and
     hand-picked boundary sequences; they run first, so that a reintroduced defect is reported with the shortest replay."""
-    def mkc(cid, kind, c, l, ci, q, toks, qs=(), ctor="full", outside=None):
+    def mkc(cid, kind, c, l, ci, q, toks, qs=(), ctor="full", outside=None, pool=()):
         case = caseio.Case("c%d" % cid, kind, {"c": c, "l": l, "ci": ci, "q": q, "ctor": ctor, "corpus": 1})
+        if pool:
+            case.word("pool", ["%d,%d,%d,%d" % x for x in pool])
         for i, (r, cl) in enumerate(qs):
             qmat(case, "q%d" % i, r, cl, 9100 + 100 * i)
         return finish_case(case, toks, outside)
@@ -387,6 +710,22 @@ def corpus():
         ("pset", 1, 4, 0, 1, ["F1", "R2,0,1", "F9", "R1,0,1"], ()),      # quaternion split change: state kept, Gaussian part reset
         ("pset", 0, 2, 0, 0, ["Z", "F1", "P2,2,0,0,50", "r0,2", "Z"], ()),  # empty set: x += x is defined
         ("gm", 0, 2, 1, 1, ["F1", "C", "Aq0", "R2,2,1"], ((2, 3),)),     # no components: non-square augmentation refused
+        # special member functions between objects that differ in noise augmentation (a hand-written move assignment that
+        # forgets a descriptor): g augmented, then g = GaussianMixture(...); r = a + b for augmented a, b and an unrelated r;
+        # h = augmented(belief, Q), then augmented again; the same for a Gaussian; self-assignment; assignment between an
+        # object and an augmented / resized copy of itself
+        ("gm", 2, 1, 1, 0, ["Aq0", "t0,3,2,1,1,-1"], ((2, 2),)),
+        ("pset", 2, 2, 1, 0, ["F1", "Aq0", "@1", "F500", "Aq1", "p2,0,1", "@0", "@1"], ((2, 2), (2, 2)), "full", None, ((1, 2, 1, 0), (1, 1, 0, 0))),
+        ("gm", 2, 2, 0, 0, ["F1", "@1", "f1,0,q0", "Aq1", "@0"], ((2, 2), (1, 1)), "full", None, ((4, 3, 0, 0),)),
+        ("gauss", 1, 2, 0, 0, ["Aq0", "t0,1,3,0,0,-1"], ((2, 2),)),
+        ("gauss", 1, 2, 1, 1, ["F1", "Aq0", "@1", "v1,0", "c0,1", "s0,0"], ((1, 1),), "full", None, ((1, 1, 0, 0),)),
+        ("gm", 3, 1, 1, 1, ["F1", "Aq0", "s0,0", "f0,0,q1", "g0,0,2,2,1", "a0,0,q2", "b0,0,4,2,1"], ((1, 1), (2, 2), (1, 1))),
+        ("gm", 2, 1, 0, 0, ["F1", "Aq0", "@1", "F900", "v1,0", "x0,2,1,1,0", "y1,2,1,1,0,50", "m0,1"], ((1, 1),), "full", None, ((1, 3, 1, 1),)),
+        ("pset", 2, 2, 0, 0, ["F1", "@1", "F500", "Aq0", "@0", "Aq1", "u0,1", "w1,0,0", "m2,1", "s1,2", "v0,2"], ((1, 1), (1, 1)), "full", None, ((1, 2, 0, 0), (3, 1, 1, 1))),
+        # writes through the non-const element / block accessors, before and after augmentations (state and noise parts)
+        ("gm", 3, 2, 1, 1, ["G1", "Aq0", "H50", "Aq1", "G900"], ((1, 1), (2, 2))),
+        ("pset", 2, 1, 1, 0, ["H1", "Aq0", "G77", "Aq1", "Aq2", "H500"], ((2, 2), (1, 1), (1, 1))),
+        ("gauss", 1, 2, 1, 1, ["G1", "Aq0", "H9", "B2,2,1", "G5", "H7"], ((1, 1),)),
         # outside the premises: library must fail where the model says undefined
         ("gm", 0, 2, 0, 0, ["Aq0"], ((1, 1),), "full", "aug0"),          # unsigned components - 1
         ("pset", 0, 1, 1, 0, ["F1", "Aq0"], ((2, 2),), "full", "aug0"),
@@ -399,7 +738,8 @@ def corpus():
     ]
     out = []
     for i, t in enumerate(L):
-        out.append(mkc(i, *t[:6], qs=t[6], ctor=t[7] if len(t) > 7 else "full", outside=t[8] if len(t) > 8 else None))
+        out.append(mkc(i, *t[:6], qs=t[6], ctor=t[7] if len(t) > 7 else "full", outside=t[8] if len(t) > 8 else None,
+                       pool=t[9] if len(t) > 9 else ()))
     return out
 
 
@@ -409,7 +749,11 @@ def generate(rng, tier):
     for k in range(COUNTS[tier]):
         kind = rng.choice(["gm"] * 4 + ["gauss"] * 2 + ["pset"] * 5)
         cases.append(random_case(rng, k, tier, kind))
+    for k in range(POOL_COUNTS[tier]):
+        kind = rng.choice(["gm"] * 4 + ["gauss"] * 3 + ["pset"] * 5)
+        cases.append(pooled_case(rng, "k%d" % k, tier, kind))
     cases += exhaustive(tier)
+    cases += pool_exhaustive(tier)
     # shortest sequences first: the first case violating a clause is the one written as replay; the cases that end
     # with an operation on which the library is expected to die come last (each one restarts the harness)
     cases.sort(key=lambda c: int(c.meta.get("len", 0)))
@@ -419,9 +763,21 @@ def generate(rng, tier):
     return inside + outside
 
 
+def search_cases(rng):
+    """The widened search (anchored sources edited / correspondence broken): long sequences, pools, pairs of special member operations."""
+    cases = []
+    for k in range(1100):
+        cases.append(random_case(rng, "r%d" % k, "thorough", rng.choice(["gm"] * 4 + ["gauss"] * 2 + ["pset"] * 5)))
+    for k in range(1500):
+        cases.append(pooled_case(rng, "q%d" % k, "thorough", rng.choice(["gm"] * 4 + ["gauss"] * 3 + ["pset"] * 5)))
+    cases += rng.sample([c for c in pool_exhaustive("thorough") if c.meta.get("exh") == "p2"], 400)
+    cases.sort(key=lambda c: int(c.meta.get("len", 0)))
+    return [c for c in cases if not c.meta.get("outside")] + [c for c in cases if c.meta.get("outside")]
+
+
 def nontrivial(c):
     w = c.meta.get("word", "")
-    if len([x for x in w if x != "F"]) >= 2:
+    if len([x for x in w if x not in "FGH@"]) >= 2:
         return (c.kind, c.meta["c"], c.meta["l"], c.meta["ci"], c.meta["q"], w)
     return None
 
@@ -442,10 +798,11 @@ def histogram(cases):
 
 
 # ------------------------------------------------------------------ comparison
-INTS = ["components", "quat", "dcc", "dim", "dl", "dc", "dn", "dcov", "ret"]
-MATS = {"gm": ["mean", "cov", "w", "amean", "acov", "aw", "emean", "ecov"],
-        "gauss": ["mean", "cov", "w", "amean", "acov", "aw", "emean", "ecov", "gmean", "gcov", "gemean", "gecov"],
-        "pset": ["mean", "cov", "w", "amean", "acov", "aw", "emean", "ecov", "state", "astate", "estate"]}
+INTS = ["components", "quat", "dcc", "dim", "dl", "dc", "dn", "dcov", "ret", "slot"]
+PARTS = ["smean", "nmean", "scov", "ncov"]
+MATS = {"gm": ["mean", "cov", "w", "amean", "acov", "aw", "emean", "ecov"] + PARTS,
+        "gauss": ["mean", "cov", "w", "amean", "acov", "aw", "emean", "ecov", "gmean", "gcov", "gemean", "gecov"] + PARTS,
+        "pset": ["mean", "cov", "w", "amean", "acov", "aw", "emean", "ecov", "state", "astate", "estate"] + PARTS + ["sstate", "nstate"]}
 
 
 def steps(c):
@@ -550,29 +907,58 @@ def on_crash(c, info, model):
 
 
 # ------------------------------------------------------------------ the property evaluated on the implementation
+OPTYPE = {"G": "fill-elementwise", "H": "fill-blockwise", "F": "fill", "C": "copy", "M": "move", "S": "assign", "R": "resize", "r": "resize-default-dc", "B": "resize-via-base",
+          "A": "augment", "W": "augment-self", "P": "concat", "Q": "plus", "D": "concat-self-copy", "E": "plus-self",
+          "Z": "concat-aliased",
+          "@": "look", "c": "copy-construct", "m": "move-construct", "s": "copy-assign", "v": "move-assign",
+          "t": "assign-temporary", "n": "construct-temporary", "f": "assign-augmented-result", "a": "assign-augmented-copy",
+          "g": "assign-resized-result", "b": "assign-resized-copy", "p": "assign-sum", "w": "construct-sum", "u": "concat-slot",
+          "x": "assign-from-gaussian", "y": "assign-from-particleset"}
+
+
 def optype(tok):
-    return {"F": "fill", "C": "copy", "M": "move", "S": "assign", "R": "resize", "r": "resize-default-dc", "B": "resize-via-base",
-            "A": "augment", "W": "augment-self", "P": "concat", "Q": "plus", "D": "concat-self-copy", "E": "plus-self",
-            "Z": "concat-aliased"}[tok[0]]
+    if tok[0] == "s":
+        v = tok[1:].split(",")
+        if v[0] == v[1]:
+            return "self-assign"
+    return OPTYPE[tok[0]]
+
+
+def blockfill(r, cc, b0):
+    return np.array([[b0 + j * r + i for j in range(cc)] for i in range(r)], dtype=float).reshape(r, cc)
+
+
+def fresh_obj(kind, c2, l2, ci2, q2, b=-1):
+    """Descriptors and storage of a freshly constructed (b < 0) or constructed-and-filled object, as the harness builds it."""
+    if kind == "gauss":
+        c2 = 1
+    dcc = 4 if q2 else 1
+    dim = l2 + ci2 * dcc
+    dcv = l2 + ci2 * (3 if q2 else 1)
+    o = {"components": c2, "quat": 1 if q2 else 0, "dcc": dcc, "dim": dim, "dl": l2, "dc": ci2, "dn": 0, "dcov": dcv}
+    if b < 0:
+        o.update(mean=np.zeros((dim, c2)), cov=np.zeros((dcv, dcv * c2)),
+                 w=np.full((c2, 1), 1.0 / c2) if c2 > 0 else np.zeros((0, 1)), state=np.zeros((dim, c2)))
+        return o
+    o["mean"] = blockfill(dim, c2, b); b += dim * c2
+    o["cov"] = blockfill(dcv, dcv * c2, b); b += dcv * dcv * c2
+    o["w"] = blockfill(c2, 1, b); b += c2
+    o["state"] = blockfill(dim, c2, b)
+    return o
 
 
 def fresh_rhs(tok):
     """Storage of the fresh operand of P/Q: constructor + fill, as the harness builds it."""
     c2, l2, ci2, q2, b = [int(x) for x in tok[1:].split(",")]
-    dcc = 4 if q2 else 1
-    dim = l2 + ci2 * dcc
-    dcv = l2 + ci2 * (3 if q2 else 1)
-
-    def blockfill(r, cc, b0):
-        return np.array([[b0 + j * r + i for j in range(cc)] for i in range(r)], dtype=float).reshape(r, cc)
-    mean = blockfill(dim, c2, b); b += dim * c2
-    cov = blockfill(dcv, dcv * c2, b); b += dcv * dcv * c2
-    w = blockfill(c2, 1, b); b += c2
-    st = blockfill(dim, c2, b)
-    return {"components": c2, "dim": dim, "dcov": dcv, "mean": mean, "cov": cov, "w": w, "state": st}
+    return fresh_obj("pset", c2, l2, ci2, q2, b)
 
 
 def resize_request(kind, tok):
+    if tok[0] in "gb":
+        rq = [int(x) for x in tok[1:].split(",")][2:]
+        if kind == "gauss":
+            rq[0] = 1
+        return rq
     rq = [int(x) for x in tok[1:].split(",")]
     if tok[0] == "r":
         rq = rq + [0]
@@ -581,15 +967,41 @@ def resize_request(kind, tok):
     return rq
 
 
+DESC = ("components", "quat", "dcc", "dim", "dl", "dc", "dn", "dcov")
+
+
+def pool_layouts(c):
+    lays = [(int(c.meta["c"]) if c.kind != "gauss" else 1, int(c.meta["l"]), int(c.meta["ci"]), int(c.meta["q"]))]
+    for t in (c.get("pool") if c.has("pool") else []):
+        v = [int(x) for x in t.split(",")]
+        lays.append((1 if c.kind == "gauss" else v[0], v[1], v[2], v[3]))
+    return lays
+
+
 def oracle(c, impl, model):
     v = []
     kind = c.kind
     ops = c.get("ops") if c.has("ops") else []
     G = lambda k, f: impl.get("%d.%s" % (k, f))
+    lays = pool_layouts(c)
+
+    def D(k):
+        d = {f: G(k, f) for f in DESC}
+        d.update(mean=G(k, "mean"), cov=G(k, "cov"), w=G(k, "w"), state=G(k, "state") if kind == "pset" else None)
+        return d
 
     def add(k, clause, detail):
         op = "ctor" if k == 0 else optype(ops[k - 1])
         v.append(("C11:%s:%s:%s" % (kind, op, clause), "step %d: %s" % (k, detail)))
+
+    def same_obj(a, b):
+        return (all(a[f] == b[f] for f in DESC) and same(a["mean"], b["mean"]) and same(a["cov"], b["cov"]) and same(a["w"], b["w"])
+                and (kind != "pset" or same(a["state"], b["state"])))
+
+    def what_differs(a, b):
+        out = ["%s %s (source %s)" % (f, a[f], b[f]) for f in DESC if a[f] != b[f]]
+        out += [f for f in ("mean", "cov", "w") + (("state",) if kind == "pset" else ()) if not same(a[f], b[f])]
+        return ", ".join(out)
 
     last, und = last_step(c, impl, model)
     skipped = impl.get("skipped")
@@ -602,17 +1014,25 @@ def oracle(c, impl, model):
         # outside the property's quantifier: a library that accepts the operation is as fine as one that fails; only counted
         count("outside_accepted")
         count("outside_accepted:%s" % c.meta.get("outside", ops[und - 1][0]))
-    via_base = False
+    via_base = {}
+    lastdump = {}                 # slot -> the step at which it was last printed (no later operation wrote to it)
     for k in range(last + 1):
         if G(k, "components") is None:
             v.append(("C11:%s:no-output" % kind, "step %d missing" % k)); break
         tok = ops[k - 1] if k > 0 else None
-        n, quat, dcc, dim, dl, dc, dn, dcv = [G(k, f) for f in ("components", "quat", "dcc", "dim", "dl", "dc", "dn", "dcov")]
+        slot = G(k, "slot") or 0
+        n, quat, dcc, dim, dl, dc, dn, dcv = [G(k, f) for f in DESC]
         mean, cov, w = G(k, "mean"), G(k, "cov"), G(k, "w")
         if tok and tok[0] == "B":
-            via_base = True
+            via_base[slot] = True
         elif tok and tok[0] in "Rr":
-            via_base = False
+            via_base[slot] = False
+        elif tok and tok[0] in "cmsv":
+            via_base[slot] = via_base.get(int(tok[1:].split(",")[1]), False)
+        elif tok and tok[0] in "fagb":
+            via_base[slot] = via_base.get(int(tok[1:].split(",")[1]), False) and tok[0] in "fa"
+        elif tok and tok[0] in "tn":
+            via_base[slot] = False
         # --- Consistent
         if dcc != (4 if quat else 1):
             add(k, "dcc", "dim_circular_component=%d with use_quaternion=%d" % (dcc, quat))
@@ -630,7 +1050,7 @@ def oracle(c, impl, model):
         if kind == "pset" and st.shape != (dim, n):
             add(k, "state-shape", "state_ is %dx%d, descriptors say %dx%d" % (st.shape + (dim, n)))
         if kind == "gauss" and n != 1:
-            if via_base:
+            if via_base.get(slot):
                 count("gaussian-with-%s-components-after-resize-through-GaussianMixture&" % ("0" if n == 0 else "several"))
             else:
                 add(k, "gaussian-components", "a Gaussian reports %d components" % n)
@@ -659,27 +1079,105 @@ def oracle(c, impl, model):
             ok = ok and same(gc_, cov)
             if n >= 1 and not ok:
                 add(k, "accessor-gaussian", "Gaussian::mean()/mean(i)/covariance()/covariance(i,j)/weight() do not return component 0 / the covariance storage")
+        # --- the parts addressed through dim_noise: state part (head / top-left), noise part (tail / bottom-right)
+        if G(k, "parts_oob") == 1:
+            add(k, "noise-part-out-of-range", "dim_noise=%d does not fit dim=%d / dim_covariance=%d / the storage" % (dn, dim, dcv))
+        elif G(k, "smean") is not None and mean.shape == (dim, n) and cov.shape == (dcv, dcv * n):
+            sd, sv = dim - dn, dcv - dn
+            okp = same(G(k, "smean"), mean[:sd, :]) and same(G(k, "nmean"), mean[sd:, :])
+            for i in range(n):
+                Bi = cov[:, i * dcv:(i + 1) * dcv]
+                okp = okp and same(G(k, "scov")[:, i * sv:(i + 1) * sv], Bi[:sv, :sv]) and same(G(k, "ncov")[:, i * dn:(i + 1) * dn], Bi[sv:, sv:])
+            if kind == "pset" and G(k, "sstate") is not None and st.shape == (dim, n):
+                okp = okp and same(G(k, "sstate"), st[:sd, :]) and same(G(k, "nstate"), st[sd:, :])
+            if not okp:
+                add(k, "accessor-parts", "head/tail of mean(i) / state(i), corners of covariance(i) by dim_noise are not the state / noise part of the storage")
         # --- content clauses
-        if k == 0:
+        now = D(k)
+        t = tok[0] if tok else None
+        args = tok[1:].split(",") if tok else []
+        # the object the clause compares with: the same slot before the operation, or the source of a construction / assignment
+        prev = None
+        if k == 0 or (t == "@" and slot not in lastdump):
+            # a constructor call: uniform weights, zero storage, the requested layout
+            lay = lays[slot] if slot < len(lays) else None
             if n > 0 and not same(w, np.full((n, 1), 1.0 / n)):
                 add(k, "uniform-weights", "a new mixture has weights %s" % w.ravel()[:4])
             if np.any(mean != 0) or np.any(cov != 0) or (st is not None and np.any(st != 0)):
                 add(k, "new-storage-not-zero", "freshly constructed storage is not zero")
-            rq = (int(c.meta["c"]) if kind != "gauss" else 1, int(c.meta["l"]), int(c.meta["ci"]), int(c.meta["q"]))
-            if (n, dl, dc, quat, dn) != rq + (0,):
-                add(k, "constructor-arguments", "constructed (%s) reports components=%d dl=%d dc=%d quat=%d dn=%d" % (rq, n, dl, dc, quat, dn))
+            if lay is not None and (n, dl, dc, quat, dn) != lay + (0,):
+                add(k, "constructor-arguments", "constructed (%s) reports components=%d dl=%d dc=%d quat=%d dn=%d" % (lay, n, dl, dc, quat, dn))
+            lastdump[slot] = k
             continue
-        pn, pdim, pdl, pdc, pdn, pdcv = [G(k - 1, f) for f in ("components", "dim", "dl", "dc", "dn", "dcov")]
-        pmean, pcov, pw = G(k - 1, "mean"), G(k - 1, "cov"), G(k - 1, "w")
-        pst = G(k - 1, "state") if kind == "pset" else None
-        t = tok[0]
-        desc_same = all(G(k, f) == G(k - 1, f) for f in ("quat", "dcc", "dim", "dl", "dc", "dn", "dcov"))
-        if t in "CMS" or (t in "AW" and G(k, "ret") == 0) or t == "F":
+        if t in "cmsv":
+            tgt, src = int(args[0]), int(args[1])
+            if src in lastdump:
+                S_ = D(lastdump[src])
+                if not same_obj(now, S_):
+                    add(k, "not-the-source", "the target of %s differs from its source (slot %d as printed at step %d): %s"
+                        % (optype(tok), src, lastdump[src], what_differs(now, S_)))
+                count("copy:%s:target-compared-with-source" % optype(tok))
+            else:
+                count("copy:source-never-printed(not-compared)")
+            if G(k, "ret") != 1:
+                add(k, "assignment-return", "operator= did not return *this")
+            if t in "mv" and src != tgt:
+                lastdump.pop(src, None)          # moved-from: valid but unspecified, not looked at any more
+            lastdump[slot] = k
+            continue
+        if t in "tnxy":
+            iv = [int(x) for x in args]
+            if t == "x":
+                want = fresh_obj("gauss", 1, iv[1], iv[2], iv[3])
+            else:
+                want = fresh_obj(kind, iv[1], iv[2], iv[3], iv[4], iv[5])
+            if not same_obj(now, want):
+                add(k, "not-the-temporary", "the target of %s differs from the temporary it was given: %s" % (optype(tok), what_differs(now, want)))
+            if G(k, "ret") != 1:
+                add(k, "assignment-return", "operator= did not return *this")
+            lastdump[slot] = k
+            continue
+        if t == "@":
+            P_ = D(lastdump[slot])
+            if not same_obj(now, P_):
+                add(k, "changed-behind-the-back", "slot %d differs from what it was when last written (step %d): %s; in between only other objects were operated on"
+                    % (slot, lastdump[slot], what_differs(now, P_)))
+            lastdump[slot] = k
+            continue
+        src = int(args[1]) if t in "fagbpw" else slot
+        before = dict(lastdump)
+        lastdump[slot] = k
+        if src not in before:
+            count("content:source-never-printed(not-compared)")
+            continue
+        P_ = D(before[src])
+        pn, pdim, pdl, pdc, pdn, pdcv = [P_[f] for f in ("components", "dim", "dl", "dc", "dn", "dcov")]
+        pmean, pcov, pw, pst = P_["mean"], P_["cov"], P_["w"], P_["state"]
+        desc_same = all(now[f] == P_[f] for f in ("quat", "dcc", "dim", "dl", "dc", "dn", "dcov"))
+        aug_ret = G(k, "ret")
+        if t in "fa":
+            # the function result: the noise covariance is accepted iff it is square
+            qn = args[2]
+            aug_ret = 1 if c.get(qn + ".r") == c.get(qn + ".c") else 0
+            if G(k, "ret") != 1:
+                add(k, "assignment-return", "operator= did not return *this")
+        if t in "CMS" or (t in "AWfa" and aug_ret == 0) or t in "FGH":
             if not desc_same or n != pn:
                 add(k, "descriptors-changed", "descriptors changed by %s" % optype(tok))
-            if t != "F" and not (same(mean, pmean) and same(cov, pcov) and same(w, pw) and (pst is None or same(st, pst))):
+            if t not in "FGH" and not (same(mean, pmean) and same(cov, pcov) and same(w, pw) and (pst is None or same(st, pst))):
                 add(k, "content-changed", "storage changed by %s" % optype(tok))
-        if t in "RrB":
+            if t in "GH" and mean.shape == (dim, n) and cov.shape == (dcv, dcv * n) and w.shape == (n, 1):
+                # what was written through the per-component accessors is where the storage model says it is
+                b0 = int(tok[1:])
+                wm = blockfill(dim, n, b0); wc = blockfill(dcv, dcv * n, b0 + dim * n); ww = blockfill(n, 1, b0 + dim * n + dcv * dcv * n)
+                okf = same(mean, wm) and same(cov, wc) and same(w, ww)
+                if pst is not None and st.shape == (dim, n):
+                    okf = okf and same(st, blockfill(dim, n, b0 + dim * n + dcv * dcv * n + n))
+                if not okf:
+                    add(k, "write-accessors", "values written through the non-const %s accessors of component i are not in component i's cells of the storage"
+                        % ("element" if t == "G" else "block"))
+                count("fill-through-accessors:%s:storage-checked" % ("element" if t == "G" else "block"))
+        if t in "RrBgb":
             rc, rl, rci = resize_request(kind, tok)
             if (n, dl, dc) != (rc, rl, rci):
                 add(k, "requested-layout", "resize(%d;%d,%d) left components=%d dl=%d dc=%d" % (rc, rl, rci, n, dl, dc))
@@ -702,9 +1200,11 @@ def oracle(c, impl, model):
                 m = min(n, pn)
                 if m > 0 and mean.shape == (pdim - pdn, n) and np.array_equal(mean[:, :m], pmean[:pdim - pdn, :m]):
                     count("resize:augmented...:non-noise-part-of-the-survivors-happens-to-be-kept")
-        if t in "AW" and G(k, "ret") == 1:
-            if t == "A":
-                name = tok[1:]
+            if t in "gb" and G(k, "ret") != 1:
+                add(k, "assignment-return", "operator= did not return *this")
+        if t in "AWfa" and aug_ret == 1:
+            if t in "Afa":
+                name = tok[1:] if t == "A" else args[2]
                 r, qc = c.get(name + ".r"), c.get(name + ".c")
                 Q = c.get(name) if r > 0 and qc > 0 else np.zeros((r, qc))
             else:
@@ -737,11 +1237,17 @@ def oracle(c, impl, model):
             shp = (c.get(tok[1:] + ".r"), c.get(tok[1:] + ".c")) if t == "A" else pcov.shape
             if shp[0] == shp[1]:
                 add(k, "augment-square-refused", "a square %dx%d noise covariance was refused" % shp)
-        if t in "PQDEZ":
+        if t in "PQDEZpwu":
             if t in "PQ":
                 R = fresh_rhs(tok)
+            elif t in "pwu":
+                rs = int(args[2]) if t in "pw" else int(args[1])
+                if rs not in before:
+                    count("content:source-never-printed(not-compared)")
+                    continue
+                R = D(before[rs])          # the right operand as it was before this step (it may be the target itself)
             else:
-                R = {"components": pn, "dim": pdim, "dcov": pdcv, "mean": pmean, "cov": pcov, "w": pw, "state": pst}
+                R = P_
             rn = R["components"]
             if not desc_same:
                 add(k, "concat-descriptors", "layout descriptors changed by a concatenation")
@@ -755,7 +1261,7 @@ def oracle(c, impl, model):
             else:
                 add(k, "concat-storage", "storage after concatenating %d and %d components: mean %s cov %s w %s state %s" % (pn, rn, mean.shape, cov.shape, w.shape, st.shape))
             if G(k, "ret") != 1:
-                add(k, "concat-return", "operator+= did not return *this")
+                add(k, "concat-return", "operator+= / operator= did not return *this")
     # report the first failing step only (later steps inherit the damage), at most two clauses of it
     seen, out, step0 = set(), [], None
     for s, dt in v:
